@@ -312,16 +312,43 @@ impl TCheck for C08 {
         let n = rng.range(1, 40) as usize;
         let srcs = [SrcKind::Cursor, SrcKind::Cursor, SrcKind::Sim, SrcKind::File, SrcKind::FileRange, SrcKind::FilePeeked, SrcKind::FileRangeToEnd];
         let contents = gen_contents(&mut rng, n, 600, &srcs, comp);
+        let mut contents = contents;
+        // one work in sixteen stores a large incompressible content in a compressed cluster (its
+        // stored size exceeds 1 MiB) between ordinary ones
+        let big = work % 16 == 11 && comp != Comp::None;
+        if big {
+            let at = rng.usize_below(contents.len() + 1);
+            let len = rng.range(1_100_000, 1_400_000) as usize;
+            contents.insert(
+                at,
+                ContentSpec {
+                    bytes: Arc::new(gen::gen_bytes(&mut rng, 900, len, Flavor::Random)),
+                    hint: Hint::Yes,
+                    src: SrcKind::Cursor,
+                    pack: 1,
+                },
+            );
+        }
+        // one work in sixteen does not set the worker-count knob and runs as on a one-CPU host
+        let one_cpu = work % 16 == 3;
         let workers = rng.range(1, 15);
         let max_blobs = rng.range(1, 6);
         let max_size = *rng.pick(&[256u64, 1024, 4096]);
-        let knobs = vec![
+        let mut knobs = vec![
             ("creator_workers", workers),
             ("cluster_max_blobs", max_blobs),
             ("cluster_max_size", max_size),
             ("decode_chunk", *rng.pick(&[7u64, 64, 4096])),
             ("decomp_pool_size", *rng.pick(&[1u64, 2, 8])),
         ];
+        if one_cpu {
+            knobs.retain(|(k, _)| *k != "creator_workers");
+        }
+        if big {
+            // keep the big content in a cluster of its own size class
+            knobs.retain(|(k, _)| *k != "cluster_max_size" && *k != "decode_chunk");
+            knobs.push(("decode_chunk", 65536));
+        }
         // one work in six injects a hard error into its simulated input streams
         let hard_err_call = if work % 6 == 5 && contents.iter().any(|c| c.src == SrcKind::Sim && c.bytes.len() > 0) {
             Some(rng.range(0, 3))
@@ -339,7 +366,7 @@ impl TCheck for C08 {
             dedup: false,
             hard_err_call,
         });
-        let desc = json!({"hard_input_error_at_read_call": hard_err_call, "comp": comp.name(), "contents": w.contents.iter().map(|c| format!("{}{}{}", c.bytes.len(), match c.hint {Hint::Yes=>"Y",Hint::No=>"N",Hint::Detect=>"D"}, match c.src {SrcKind::Cursor=>"c",SrcKind::File=>"f",SrcKind::FileRange=>"r",SrcKind::Sim=>"s",SrcKind::FilePeeked=>"p",SrcKind::FileRangeToEnd=>"e"})).collect::<Vec<_>>(),
+        let desc = json!({"one_cpu_host_no_worker_knob": one_cpu, "big_incompressible_content": big, "hard_input_error_at_read_call": hard_err_call, "comp": comp.name(), "contents": w.contents.iter().map(|c| format!("{}{}{}", c.bytes.len(), match c.hint {Hint::Yes=>"Y",Hint::No=>"N",Hint::Detect=>"D"}, match c.src {SrcKind::Cursor=>"c",SrcKind::File=>"f",SrcKind::FileRange=>"r",SrcKind::Sim=>"s",SrcKind::FilePeeked=>"p",SrcKind::FileRangeToEnd=>"e"})).collect::<Vec<_>>(),
                           "workers": workers, "cluster_max_blobs": max_blobs, "cluster_max_size": max_size});
         let w2 = Arc::clone(&w);
         Prepared {
@@ -352,6 +379,7 @@ impl TCheck for C08 {
             }),
             record_events: true,
             hard_fault: hard_err_call.is_some(),
+            one_cpu,
         }
     }
     fn history_oracle(&self, events: &[Event], _report: &BodyReport) -> Vec<String> {
